@@ -220,6 +220,36 @@ def run(ctx):
             tmeta.append((which, fn, top))
     tm = ctx.driver.query(treqs) if ctx.driver_ok else [None] * len(treqs)
     PAT = {"phi": [("C", -1), ("N", 0), ("CA", 0), ("C", 0)], "psi": [("N", 0), ("CA", 0), ("C", 0), ("N", 1)], "omega": [("CA", 0), ("C", 0), ("N", 1), ("CA", 1)]}
+    def table_ok(which, idx, top, tag):
+        """the rows are the documented atoms of one residue window in one chain, each residue once, none missing (oracle: the topology itself)"""
+        atoms = list(top.atoms)
+        rows_seen = set()
+        for row in idx.tolist():
+            rids = [atoms[a].residue.index - off for a, (nm, off) in zip(row, PAT[which])]
+            ok = all(atoms[a].name == nm for a, (nm, off) in zip(row, PAT[which])) and len(set(rids)) == 1 and len({atoms[a].residue.chain.index for a in row}) == 1
+            if not ok or rids[0] in rows_seen:
+                viol("torsion|%s%s" % (which, tag), "indices_%s returned %s%s: not the documented atoms of one residue window in one chain (or a residue twice)" % (
+                    which, row, " after atoms of the same Topology object were renamed in place" if tag else ""), dict(torsion=which, top=enc_top(dump_top(top))))
+                return
+            rows_seen.add(rids[0])
+        for res in top.residues:
+            try:
+                want = []
+                for nm, off in PAT[which]:
+                    r2 = top.residue(res.index + off) if 0 <= res.index + off < top.n_residues else None
+                    if r2 is None or r2.chain.index != res.chain.index:
+                        raise KeyError
+                    cands = [a.index for a in r2.atoms if a.name == nm]
+                    if not cands:
+                        raise KeyError
+                    want.append(cands[-1])
+                if want not in idx.tolist():
+                    viol("torsion-missing|%s%s" % (which, tag), "indices_%s misses residue %d (%s)%s" % (which, res.index, want, " after atoms of the same Topology object were renamed in place" if tag else ""),
+                         dict(torsion=which, top=enc_top(dump_top(top))))
+                    return
+            except KeyError:
+                pass
+
     for (which, fn, top), m in zip(tmeta, tm):
         idx = fn(top)
         got = ";".join(",".join(map(str, row)) for row in idx.tolist())
@@ -253,6 +283,23 @@ def run(ctx):
             mm = ";".join(part.split(":")[1] for part in m.split(";")) if m else ""
             if mm != got:
                 ctx.broke("correspondence:torsion-indices", "%s: impl %s model %s" % (which, got, mm))
+    # ---- the same Topology object edited in place between two calls (atoms renamed, as when repairing force-field names): the second
+    # call must describe the topology as it is now
+    done = set()
+    for (which, fn, top) in tmeta:
+        if id(top) in done:
+            continue
+        done.add(id(top))
+        cands = [a for a in top.atoms if a.name in ("CA", "N", "C")]
+        if not cands:
+            continue
+        for f2 in (md.geometry.dihedral.indices_phi, md.geometry.dihedral.indices_chi1):
+            f2(top)                                           # the call before the edit (whatever it may leave behind)
+        for a in rng.sample(cands, min(2, len(cands))):
+            a.name = a.name + "X" if rng.random() < 0.6 else {"CA": "C", "C": "CA", "N": "CA"}[a.name]
+        for w2, f2 in (("phi", md.geometry.dihedral.indices_phi), ("psi", md.geometry.dihedral.indices_psi), ("omega", md.geometry.dihedral.indices_omega)):
+            ctx.case(None, ("renamed", w2, enc_top(dump_top(top)))); ctx.count("named torsion tables after an in-place edit")
+            table_ok(w2, f2(top), top, "|after-rename")
     for key, (what, rp) in seen.items():
         ctx.violation(key, what, rp)
 
